@@ -219,22 +219,41 @@ func checkC15(c *chk.Ctx) {
 			seg.Lines = append(seg.Lines, jsonLine(ev))
 			evals++
 		}
+		// every plugin under every request variant; the Go server plugin once more with the optional mock
+		// server requested (its own history: the label is part of the key)
+		type plan struct{ p, label, param string }
+		plans := []plan{}
 		for _, p := range plug.Names {
-			run(p, "base", set.Run(p, b.Request("", nil), plug.RunOpts{}), gen)
+			plans = append(plans, plan{p, "", ""})
+		}
+		plans = append(plans, plan{"go-http", "go-http:mock", "generate_mock=true"})
+		for _, pl := range plans {
+			p, param := pl.p, pl.param
+			first := len(seg.Lines)
+			run(p, "base", set.Run(p, b.Request(param, nil), plug.RunOpts{}), gen)
 			for k := 0; k < reps; k++ {
-				run(p, "repeat", set.Run(p, b.Request("", nil), plug.RunOpts{}), gen)
+				run(p, "repeat", set.Run(p, b.Request(param, nil), plug.RunOpts{}), gen)
 			}
-			run(p, "procs1", set.Run(p, b.Request("", nil), plug.RunOpts{Env: []string{"GOMAXPROCS=1"}}), gen)
+			run(p, "procs1", set.Run(p, b.Request(param, nil), plug.RunOpts{Env: []string{"GOMAXPROCS=1"}}), gen)
 			perm := append([]string{}, gen...)
 			for a, z := 0, len(perm)-1; a < z; a, z = a+1, z-1 {
 				perm[a], perm[z] = perm[z], perm[a]
 			}
-			run(p, "permuted", set.Run(p, b.Request("", perm), plug.RunOpts{}), gen)
+			run(p, "permuted", set.Run(p, b.Request(param, perm), plug.RunOpts{}), gen)
 			for _, g := range gen {
-				run(p, "single", set.Run(p, b.Request("", []string{g}), plug.RunOpts{}), []string{g})
+				run(p, "single", set.Run(p, b.Request(param, []string{g}), plug.RunOpts{}), []string{g})
 			}
-			run(p, "extra_unrelated", set.Run(p, bx.Request("", nil), plug.RunOpts{}), gen)
-			run(p, "extra_unrelated", set.Run(p, bx.Request("", append([]string{"zzextra/unrelated.proto"}, gen...)), plug.RunOpts{}), gen)
+			run(p, "extra_unrelated", set.Run(p, bx.Request(param, nil), plug.RunOpts{}), gen)
+			run(p, "extra_unrelated", set.Run(p, bx.Request(param, append([]string{"zzextra/unrelated.proto"}, gen...)), plug.RunOpts{}), gen)
+			if pl.label != "" {
+				for i := first; i < len(seg.Lines); i++ {
+					var ev map[string]any
+					if json.Unmarshal([]byte(seg.Lines[i]), &ev) == nil {
+						ev["plugin"] = pl.label
+						seg.Lines[i] = jsonLine(ev)
+					}
+				}
+			}
 		}
 		// parameter spelling: spellings that mean the same (blanks around the key, the value, the separators; the
 		// alias yml; no parameter at all) give the same files. Runs are compared within a meaning (the label).
